@@ -2,8 +2,8 @@
    (ZERO) representation, on the whole strip -eta2 < s < eta1 of the real axis (improper integral = limit of finite ones). *)
 From Coq Require Import Reals Lra Psatz Bool.
 From Coquelicot Require Import Coquelicot.
-From RV Require Import Base.RB Gen.GenC09Hem Gen.GenC10Hem Model.LevyClosedForms Model.LevyExponent
-  Proofs.C09_Generic Proofs.C09_Hem Proofs.C09_HemHalf.
+From RV Require Import Base.RB Gen.GenC09Hem Gen.GenC10Triplet Gen.GenC10Hem Gen.GenC10Exp Model.LevyClosedForms Model.LevyExponent
+  Proofs.C09_Generic Proofs.C09_Hem Proofs.C09_HemHalf Proofs.C10_Triplet.
 Open Scope R_scope.
 
 Section HemLK.
@@ -61,7 +61,74 @@ Theorem hem_pj_is_LK : hem_pj lam p e1 e2 s = Ln + Lp.
 Proof. unfold hem_pj, Ln, Lp. cbv beta iota zeta. field. split; lra. Qed.
 End HemLK.
 
-(* assembled statement for Properties/C10.v *)
+(* ------------------------------------------------------------------ HEM, Markov-chain route WITH content:
+   Jc = int (e^x - 1 - x) nu(dx) is the limit of the finite integrals of the generated density, the first-moment function is
+   the generated closed form hem_integrate_x, and (no truncation) the chain drift with the exact jump law grows at r - d. *)
+Section HemCtmc.
+Variables INF lam p e1 e2 : R.
+Hypothesis He1 : 1 < e1.
+Hypothesis He2 : 0 < e2.
+Hypothesis HINF : 0 < INF.
+
+Definition comp_hem (x : R) : R := (exp x - 1 - x) * hem_nu lam p e1 e2 x.
+Definition JcP : R := Lp lam p e1 1 - lam * p / e1.
+Definition JcN : R := Ln lam p e2 1 + lam * (1 - p) / e2.
+
+Lemma comp_hem_split x : comp_hem x = lk_hem lam p e1 e2 1 x - x ^ 1 * hem_nu lam p e1 e2 x.
+Proof. unfold comp_hem, lk_hem, lk_integrand, h_rep. simpl. replace (1 * x) with x by ring. ring. Qed.
+
+Lemma comp_hem_right : is_lim (fun b => RInt comp_hem 0 b) p_infty JcP.
+Proof.
+  apply is_lim_ext_loc with (f := fun b => RInt (lk_hem lam p e1 e2 1) 0 b - RInt (fun x => x ^ 1 * hem_nu lam p e1 e2 x) 0 b).
+  { exists 0. intros b Hb. symmetry. apply is_RInt_unique.
+    apply is_RInt_ext_R with (f := fun x => lk_hem lam p e1 e2 1 x - x ^ 1 * hem_nu lam p e1 e2 x).
+    { intros x _. symmetry. apply comp_hem_split. }
+    apply (is_RInt_minus (lk_hem lam p e1 e2 1) (fun x => x ^ 1 * hem_nu lam p e1 e2 x) 0 b).
+    - apply (@RInt_correct R_CompleteNormedModule). eexists. apply lk_hem_pos_RInt; lra.
+    - apply (@RInt_correct R_CompleteNormedModule). eexists. apply ext_pow1. apply (is_RInt_hem_x_pos lam p e1 e2); lra. }
+  unfold JcP. apply is_lim_minus'.
+  - apply hem_LK_right; lra.
+  - replace (lam * p / e1) with (hem_integrate_x INF lam p e1 e2 0 INF).
+    + apply hem_x_right; lra.
+    + rewrite hem_integrate_x_right by lra. replace (- e1 * 0) with 0 by ring. rewrite exp_0. field. lra.
+Qed.
+Lemma comp_hem_left : is_lim (fun a => RInt comp_hem a 0) m_infty JcN.
+Proof.
+  apply is_lim_ext_loc with (f := fun a => RInt (lk_hem lam p e1 e2 1) a 0 - RInt (fun x => x ^ 1 * hem_nu lam p e1 e2 x) a 0).
+  { exists 0. intros a Ha. symmetry. apply is_RInt_unique.
+    apply is_RInt_ext_R with (f := fun x => lk_hem lam p e1 e2 1 x - x ^ 1 * hem_nu lam p e1 e2 x).
+    { intros x _. symmetry. apply comp_hem_split. }
+    apply (is_RInt_minus (lk_hem lam p e1 e2 1) (fun x => x ^ 1 * hem_nu lam p e1 e2 x) a 0).
+    - apply (@RInt_correct R_CompleteNormedModule). eexists. apply lk_hem_neg_RInt; lra.
+    - apply (@RInt_correct R_CompleteNormedModule). eexists. apply ext_pow1. apply (is_RInt_hem_x_neg lam p e1 e2); lra. }
+  unfold JcN. replace (Ln lam p e2 1 + lam * (1 - p) / e2) with (Ln lam p e2 1 - (- (lam * (1 - p) / e2))) by ring.
+  apply is_lim_minus'.
+  - apply hem_LK_left; lra.
+  - replace (- (lam * (1 - p) / e2)) with (hem_integrate_x INF lam p e1 e2 (- INF) 0).
+    + apply hem_x_left; lra.
+    + rewrite hem_integrate_x_left by lra. replace (e2 * 0) with 0 by ring. rewrite exp_0. field. lra.
+Qed.
+
+Theorem hem_martingale_ctmc r d sigma mu_h :
+  let m1 := hem_integrate_x INF lam p e1 e2 in
+  let a0 := hem_a lam p e1 e2 in
+  ctmc_growth_exact
+    (ctmc_process_drift (exp_model_drift r d (omega_of a0 sigma (hem_pj lam p e1 e2))) (tilde_drift INF m1 true a0 (rep_code ZERO))
+                        (ctmc_mu_tilde INF m1 true) mu_h) mu_h sigma (JcN + JcP) = r - d.
+Proof.
+  intros m1 a0.
+  unfold ctmc_growth_exact, ctmc_process_drift, exp_model_drift, omega_of, kappa, ctmc_mu_tilde, tilde_drift.
+  cbv beta iota zeta.
+  rewrite (canonical_drift_spec INF m1 true a0 ZERO) by (left; reflexivity).
+  unfold to_canonical, I11, m1. rewrite Ropp_0.
+  rewrite hem_integrate_x_left, hem_integrate_x_right by lra.
+  replace (e2 * 0) with 0 by ring. replace (- e1 * 0) with 0 by ring. rewrite exp_0.
+  unfold JcN, JcP. rewrite (hem_pj_is_LK lam p e1 e2 1) by lra.
+  unfold a0, hem_a. field. lra.
+Qed.
+End HemCtmc.
+
+(* assembled statements for Properties/C10.v *)
 Theorem hem_exponent_is_LK lam p e1 e2 s : 0 < e1 -> 0 < e2 -> - e2 < s < e1 ->
   is_lim (fun a => RInt (fun x => lk_integrand ZERO true s x * hem_nu lam p e1 e2 x) a 0) m_infty (Ln lam p e2 s) /\
   is_lim (fun b => RInt (fun x => lk_integrand ZERO true s x * hem_nu lam p e1 e2 x) 0 b) p_infty (Lp lam p e1 s) /\
@@ -71,4 +138,17 @@ Proof.
   - apply (hem_LK_left lam p e1 e2 s H2 Hs).
   - apply (hem_LK_right lam p e1 e2 s H1 Hs).
   - apply hem_pj_is_LK; assumption.
+Qed.
+Theorem hem_ctmc_route INF lam p e1 e2 r d sigma mu_h : 1 < e1 -> 0 < e2 -> 0 < INF ->
+  is_lim (fun a => RInt (fun x => (exp x - 1 - x) * hem_nu lam p e1 e2 x) a 0) m_infty (JcN lam p e2) /\
+  is_lim (fun b => RInt (fun x => (exp x - 1 - x) * hem_nu lam p e1 e2 x) 0 b) p_infty (JcP lam p e1) /\
+  ctmc_growth_exact
+    (ctmc_process_drift (exp_model_drift r d (omega_of (hem_a lam p e1 e2) sigma (hem_pj lam p e1 e2)))
+       (tilde_drift INF (hem_integrate_x INF lam p e1 e2) true (hem_a lam p e1 e2) (rep_code ZERO))
+       (ctmc_mu_tilde INF (hem_integrate_x INF lam p e1 e2) true) mu_h) mu_h sigma (JcN lam p e2 + JcP lam p e1) = r - d.
+Proof.
+  intros H1 H2 HI. repeat split.
+  - apply (comp_hem_left INF lam p e1 e2); assumption.
+  - apply (comp_hem_right INF lam p e1 e2); assumption.
+  - apply (hem_martingale_ctmc INF lam p e1 e2 H1 H2 HI).
 Qed.
